@@ -891,11 +891,17 @@ def from_shorthand(shorthand_string, slash=None):
 
     # Generate slash chord
     if slash_index != -1 and rest_of_string not in ["m/M7", "6/9", "6/7"]:
-        res = shorthand_string[: len(name) + slash_index]
-        return from_shorthand(
+        res = from_shorthand(
             shorthand_string[: len(name) + slash_index],
             shorthand_string[len(name) + slash_index + 1 :],
         )
+        if isinstance(slash, list):
+            # This slash chord is the upper half of a polychord
+            for n in res:
+                if n != slash[-1]:
+                    slash.append(n)
+            return slash
+        return res
     shorthand_start = len(name)
 
     short_chord = shorthand_string[shorthand_start:]
